@@ -134,11 +134,28 @@ def extra_cases(tier, seed, shard, nshards):
                 n += 1
                 if n % nshards == shard:
                     yield {"stream": s, "cfg": 0, "proxy": 0, "cut": k * 13 + 1, "consume": k % 2, "cut_mode": mode}
+    # every HTTP-version of the DIGIT "." DIGIT shape (0.0 - 2.9) x every framing: chunked below 1.1 is always faulty
+    smuggled = "GET /smuggled HTTP/1.1\r\nHost: a\r\n\r\n"
+    chunked = "%x\r\n%s\r\n0\r\n\r\n" % (len(smuggled), smuggled)
+    for major in range(3):
+        for minor in range(10):
+            v = "HTTP/%d.%d" % (major, minor)
+            for framing in ("Transfer-Encoding: chunked\r\n\r\n" + chunked,
+                            "Transfer-Encoding: chunked\r\nContent-Length: 4\r\n\r\n" + chunked,
+                            "Transfer-Encoding: gzip, chunked\r\n\r\n" + chunked,
+                            "Content-Length: %d\r\n\r\n%s" % (len(smuggled), smuggled),
+                            "\r\n" + smuggled):
+                for cfg in (0, 1):
+                    n += 1
+                    if n % nshards == shard:
+                        yield {"stream": "POST /one %s\r\nHost: a\r\n%sGET /after HTTP/1.1\r\nHost: a\r\n\r\n" % (v, framing),
+                               "cfg": cfg, "proxy": 0, "cut": 0, "consume": n % 2, "cut_mode": "one"}
 
 
 EXHAUSTIVE_NOTE = ("chunked-with-trailers pipelines: %d conforming streams (body 11 B / 8150 B x 0-2 trailer fields x last-chunk extension x "
                    "2 followers) x every single read boundary from the last-chunk line to 12 bytes into the follower x 2 consumption modes, "
-                   "plus the multi-cut modes" % len(_pipelines()))
+                   "plus the multi-cut modes; and every HTTP-version 0.0-2.9 x 5 framings (chunked, chunked+CL, gzip+chunked, CL, none) x 2 configs "
+                   "with a request-shaped body" % len(_pipelines()))
 
 
 def _head(r):
